@@ -151,7 +151,7 @@ def columns_of(cfg):
     return [(m[1], k) for k, m in enumerate(cfg["motifs"])]
 
 
-def make_jds(rng, cfg, nmax=40, heavy=False):
+def make_jds(rng, cfg, nmax=40, heavy=False, sparse=False):
     """handshake-consistent jds: per motif a number of instances, each orbit column gets instances*size stubs."""
     N = rng.choice([1, 2, 3, 4]) if rng.random() < 0.12 else rng.randint(1, nmax)
     cols = columns_of(cfg)
@@ -173,8 +173,11 @@ def make_jds(rng, cfg, nmax=40, heavy=False):
         else:
             mean = (12 if heavy else 4) * len(live)
             tot_size = sum(s for s, jj in cols if jj == j)
-            inst.append(rng.randint(1, max(1, min(mean // max(1, tot_size), 60 if heavy else 25))))
-    style = rng.choice(["uniform", "uniform", "concentrated", "one-vertex"])
+            top = max(1, min(mean // max(1, tot_size), 60 if heavy else 25))
+            if sparse:
+                top = max(1, len(live) // (6 * max(1, tot_size)))
+            inst.append(rng.randint(1, top))
+    style = "uniform" if sparse else rng.choice(["uniform", "uniform", "concentrated", "one-vertex"])
     jds = [[0] * len(cols) for _ in range(N)]
     for c, (s, j) in enumerate(cols):
         stubs = inst[j] * s
